@@ -19,6 +19,8 @@ type C19Case struct {
 	// are not used: whether they fail depends on the rows of the position they are planted in
 	BadSel string `json:"bad_selector,omitempty"`
 	// raise kind
+	// Once (fn kind): the failing call carries the synchronous qualifier ONCE (one invocation per query)
+	Once      bool   `json:"once,omitempty"`
 	RaiseSQL  string `json:"raise_sql,omitempty"`  // query containing RAISE / RAISE_WHEN
 	RaiseProb string `json:"raise_prob,omitempty"` // probe query: non-empty result <=> the raise fires
 }
@@ -63,6 +65,7 @@ func genC19(t *rapid.T) any {
 	c.W = genWide(t, nil)
 	ms := c.W.markers()
 	c.Plant = rapid.IntRange(0, maxInt(len(ms)-1, 0)).Draw(t, "plant")
+	c.Once = kind == "fn" && rapid.IntRange(0, 5).Draw(t, "once") == 0
 	return c
 }
 
@@ -116,7 +119,13 @@ func checkC19(c *C19Case) Result {
 
 	// fault-free run with the counting function planted: N invocations, result R0
 	injReset(0, 0)
-	sqlF := w.SQL(c.Plant, "")
+	wrapFn := ""
+	if c.Once && c.Kind == "fn" && !w.Unordered && !strings.Contains(w.Tpl, "JOIN") {
+		// (where the row order is open, which row's argument a ONCE call receives is open too)
+		wrapFn = "ONCE.vf_fail"
+		res.Labels = append(res.Labels, "fault-in-ONCE-call")
+	}
+	sqlF := w.SQL(c.Plant, wrapFn)
 	base := Run(val.CopyMap(w.Doc), sqlF, w.opts())
 	res.Execs++
 	n := int(injCalls())
@@ -240,7 +249,8 @@ func checkC19(c *C19Case) Result {
 	for k := 1; k <= limit; k++ {
 		injReset(int64(k), 0)
 		doc := val.CopyMap(w.Doc)
-		out := Run(doc, sqlF, w.opts())
+		prepared := Build(doc, sqlF, w.opts())
+		out := prepared.Exec()
 		res.Execs++
 		fired := injFailed() > 0
 		ctx := fmt.Sprintf("%s\n  with vf_fail failing at its invocation %d of %d (position %s)", sqlF, k, n, pos)
@@ -265,7 +275,20 @@ func checkC19(c *C19Case) Result {
 		if r := c19AfterFailure(c, w, doc, pristineFollow, ctx, &res); r.Violation != "" {
 			return r
 		}
+		if prepared.q != nil && k%3 == 1 {
+			// the Query object whose Exec failed is executed again, this time without the fault: it is the next
+			// query on that input as well, and returns what the fault-free run returns
+			injReset(0, 0)
+			again := prepared.Exec()
+			res.Execs++
+			res.Labels = append(res.Labels, "failed-query-object-executed-again")
+			if !sameOut(again, base, w.Unordered) {
+				res.Violation = ctx + "\n  the same Query object, executed again without the fault, returns\n    " + again.Describe() + "\n  the fault-free run returns\n    " + base.Describe()
+				return res
+			}
+		}
 	}
+	res.Labels = dedup(res.Labels)
 	res.NonTrivial = n >= 2
 	res.Labels = append(res.Labels, fmt.Sprintf("N:%s", bucket(n)))
 	res.Counts = map[string]float64{"fault_points_enumerated": float64(limit), "fault_points_capped": float64(n - limit), "queries_with_all_k_enumerated": 1}
